@@ -308,7 +308,7 @@ fn rename_label(s: &str, k: usize) -> String {
     s.to_string()
 }
 
-/// pins and signals are renamed with the pin names, test labels with the test names
+/// pins and signals are renamed with the pin names, test labels with the test names; the explicit width is instantiated
 fn rename_behaviour(b: &J, k: usize) -> J {
     if k == 0 {
         return b.clone();
@@ -319,8 +319,16 @@ fn rename_behaviour(b: &J, k: usize) -> J {
             *v = json!(rename_label(s, k));
         }
     };
+    // the model's one explicit width (4) stands for any width: DigParse only copies it
+    let width = [4u64, 64, 63, 17][k];
+    let rew = |v: &mut J| {
+        if v.as_u64() == Some(4) {
+            *v = json!(width);
+        }
+    };
     for p in b["pins"].as_array_mut().unwrap() {
         ren(&mut p["label"]);
+        rew(&mut p["bits"]);
     }
     for t in b["tests"].as_array_mut().unwrap() {
         ren(&mut t["label"]);
@@ -331,6 +339,7 @@ fn rename_behaviour(b: &J, k: usize) -> J {
     if let Some(a) = b["signals"].as_array_mut() {
         for sg in a {
             ren(&mut sg["name"]);
+            rew(&mut sg["bits"]);
         }
     }
     if let Some(a) = b["names"].as_array_mut() {
